@@ -3,6 +3,7 @@ package main
 import (
 	"fmt"
 	"go/ast"
+	"go/constant"
 	"go/token"
 	"go/types"
 )
@@ -691,4 +692,113 @@ func ruleR07n(c *Ctx) {
 		return true
 	})
 	c.floor("R07n", "returns of parseTernary", 2, n)
+}
+
+// R07o: a {let} may not be named $ij, in either of its forms. The test (a comparison of the name with "ij"
+// whose branch raises) covers both: either both let arms of the checker call the function that makes it, or
+// the parser makes it in parseLet before the first statement that can return a node.
+func ruleR07o(c *Ctx) {
+	nr := newNoRet(c)
+	// functions that compare something with "ij" and raise in that branch
+	raisers := map[*types.Func]string{}
+	for _, rel := range []string{"parsepasses", "parse"} {
+		p := c.pkg(rel)
+		if p == nil {
+			continue
+		}
+		info := p.TypesInfo
+		for _, fd := range c.allFuncDecls(rel) {
+			ast.Inspect(fd.Body, func(x ast.Node) bool {
+				ifs, ok := x.(*ast.IfStmt)
+				if !ok {
+					return true
+				}
+				be, ok := ast.Unparen(ifs.Cond).(*ast.BinaryExpr)
+				if !ok || be.Op != token.EQL {
+					return true
+				}
+				isIJ := func(e ast.Expr) bool {
+					tv := info.Types[e]
+					return tv.Value != nil && tv.Value.Kind() == constant.String && constant.StringVal(tv.Value) == "ij"
+				}
+				if !isIJ(be.X) && !isIJ(be.Y) {
+					return true
+				}
+				raises := false
+				ast.Inspect(ifs.Body, func(y ast.Node) bool {
+					if call, ok := y.(*ast.CallExpr); ok && nr.callNoReturn(call, info) {
+						raises = true
+					}
+					return true
+				})
+				if raises {
+					if fn, ok := info.Defs[fd.Name].(*types.Func); ok {
+						raisers[fn] = rel
+					}
+				}
+				return true
+			})
+		}
+	}
+	covered := map[string]bool{}
+	// (a) the checker's let arms call a raiser with the node's name
+	if ck := c.funcDecl("parsepasses", "templateChecker.checkTemplate"); ck != nil {
+		info := c.Pkgs["parsepasses"].TypesInfo
+		ast.Inspect(ck.Body, func(x ast.Node) bool {
+			cc, ok := x.(*ast.CaseClause)
+			if !ok || len(cc.List) != 1 {
+				return true
+			}
+			tv, ok := info.Types[cc.List[0]]
+			if !ok {
+				return true
+			}
+			_, tn, ok := relPkgOfType(tv.Type)
+			if !ok || (tn != "LetValueNode" && tn != "LetContentNode") {
+				return true
+			}
+			ast.Inspect(&ast.BlockStmt{List: cc.Body}, func(y ast.Node) bool {
+				if call, ok := y.(*ast.CallExpr); ok {
+					if _, isRaiser := raisers[calleeFunc(call, info)]; isRaiser {
+						covered[tn] = true
+					}
+				}
+				return true
+			})
+			return true
+		})
+	}
+	// (b) the parser tests the name before anything in parseLet can return
+	if pl := c.funcDecl("parse", "tree.parseLet"); pl != nil {
+		info := c.Pkgs["parse"].TypesInfo
+		checkAt, returnAt := -1, -1
+		for i, st := range pl.Body.List {
+			ast.Inspect(st, func(y ast.Node) bool {
+				if be, ok := y.(*ast.BinaryExpr); ok && be.Op == token.EQL && checkAt < 0 {
+					for _, e := range []ast.Expr{be.X, be.Y} {
+						if tv := info.Types[e]; tv.Value != nil && tv.Value.Kind() == constant.String && constant.StringVal(tv.Value) == "ij" {
+							checkAt = i
+						}
+					}
+				}
+				if call, ok := y.(*ast.CallExpr); ok && checkAt < 0 {
+					if _, isRaiser := raisers[calleeFunc(call, info)]; isRaiser {
+						checkAt = i
+					}
+				}
+				if _, ok := y.(*ast.ReturnStmt); ok && returnAt < 0 {
+					returnAt = i
+				}
+				return true
+			})
+		}
+		if checkAt >= 0 && (returnAt < 0 || checkAt < returnAt) {
+			covered["LetValueNode"], covered["LetContentNode"] = true, true
+		}
+	}
+	for _, tn := range []string{"LetValueNode", "LetContentNode"} {
+		c.check(covered[tn], "R07o", "let-named-ij "+tn, token.NoPos, "the name is tested against ij for this form of {let}",
+			"no test rejects the name ij for "+tn+": {let $ij ...} in that form compiles, and $ij then no longer means the injected data inside the block")
+	}
+	c.floor("R07o", "functions that reject a let named ij", 1, len(raisers))
 }
